@@ -153,8 +153,12 @@ class Armorable(metaclass=abc.ABCMeta):
                         pos += 1 + (1 << (first & 0x1f))
 
             elif tag & 0x03 == 3:
-                # old format, indeterminate length: nothing to check the framing against
-                return False
+                # old format, indeterminate length: the packet runs to the end of the input, so there is no length to
+                # check the framing against.  Of the packets that may be written this way only literal data (0xAF) has
+                # no control octet among its first octets; it is told by its format octet and the room for the file
+                # name and the time (text would have to begin with a macron followed by one of these letters)
+                return ((tag >> 2) & 0x0F == 0x0B and end - pos >= 6 and data[pos] in b'btul1m'
+                        and end - pos >= 6 + data[pos + 1])
 
             else:
                 llen = 1 << (tag & 0x03)
